@@ -139,7 +139,7 @@ def main(tier, seed):
                 T = tolcfg[0]
                 violated = vb > T or va > T or lf or vi > Fr(1, 100000)
                 margin_ok = all(a <= T or a >= T + Fr(1, 256) for a in (vb, va))
-                if 0 < vb <= T and (lf or haslogic):
+                if 0 < vb <= T and (lf or haslogic or any(o not in ('v', 'n') for o in ops)):
                     margin_ok = False     # a logical constraint evaluated outside the variable domain may have been simplified using that domain
                 # logical results and counts are not tolerance-aware: keep only points whose logical structure is unaffected
             else:
@@ -235,7 +235,7 @@ def main(tier, seed):
                         pass
         return k, res, info
 
-    for k, res, info in run.pmap(one, range(ncases)):
+    for k, res, info in run.pmap_proc(one, range(ncases), chunk=4):
         nt = info['judged'] and info['rep'] and info['clean'] and any(op in info['ops'] for op in ('abs', 'min', 'max', 'if', 'count', 'pl', '^2', '*', 'numberof', 'and', 'or', 'not', 'lt', 'le', 'eq', 'ge', 'gt', 'ne', 'iff', 'implies', 'alldiff', 'atleast', 'atmost', 'exactly'))
         ctx.count('%s|%s|%s' % (info['mode'], info['tol'], ','.join(info['ops'])[:70]), nontrivial=bool(nt))
         ctx.bump('points_judged', info['judged'])
@@ -257,7 +257,7 @@ def main(tier, seed):
     ctx.assumptions += ['all flat constraint types accepted natively, so every auxiliary variable is defined by a functional constraint and has one true value',
                         'points are exactly feasible or violate by >= 2^-12 (default tolerances) / lie exactly on or >= 1/256 beyond the absolute tolerance 1/4 (tolerance configuration, relative tolerance 0, models without numberof/alldiff whose equality tests are tolerance-based in the checker)',
                         'in the tolerance configuration, at a point within tolerance that is not exactly feasible, only report lines about original items (variable bounds/integrality, algebraic constraints, objective) are judged: inferred bounds of auxiliary variables are not scaled with the tolerance; such points are not used for the sol:chk:fail run',
-                        'a feasible NL point whose completed auxiliary values leave the delivered bounds of an auxiliary variable is skipped (the delivered model excludes it: decided under C01/C06), and so is an infeasible NL point that satisfies every delivered constraint under the oracle semantics (the conversion lost a constraint: C01); in the tolerance configuration points off a variable bound by 0 < d <= T are judged only for models without logical operators (the converter may simplify with the variable domain)',
+                        'a feasible NL point whose completed auxiliary values leave the delivered bounds of an auxiliary variable is skipped (the delivered model excludes it: decided under C01/C06), and so is an infeasible NL point that satisfies every delivered constraint under the oracle semantics (the conversion lost a constraint: C01); in the tolerance configuration points off a variable bound by 0 < d <= T are judged only for purely linear models (the converter may simplify any expression with the variable domain, e.g. fold max(x) of a fixed x)',
                         'the modes tested contain bits {1,2} or {32,64}; partial modes are only tested for mode 0 (nothing may be reported)']
     return ctx.finish(RULE, floor=40)
 
